@@ -11,7 +11,14 @@ def expectedC04 : List (String × String) := [
   ("comparison.Comparable", "8a588fbb99818892"),
   ("comparison._itemgetter_with_default", "6ab67f1857478e78"),
   ("comparison._typestr", "8ffeb3d6c9e56621"),
-  ("comparison.comparable_itemgetter", "de3244b3535f1528")
+  ("comparison.comparable_itemgetter", "de3244b3535f1528"),
+  ("file:comparison.py", "17971f67ee946013"),
+  ("file:compat.py", "2a259e16acd200bc"),
+  ("file:config.py", "142bde514c82c29d"),
+  ("file:transform/joins.py", "bb9e0069e4d5e3a6"),
+  ("file:transform/selects.py", "f935e8905e1e021c"),
+  ("file:transform/sorts.py", "137f7e8a70e043fe"),
+  ("file:util/base.py", "771a68108eeb730d")
 ]
 
 /-- every function or class the model of C04 mirrors still has the body it was validated against -/
